@@ -4,6 +4,7 @@ import (
 	"fmt"
 	"go/token"
 	"go/types"
+	"sort"
 	"strings"
 
 	"golang.org/x/tools/go/ssa"
@@ -442,9 +443,9 @@ func queueEmptyCut(b *ssa.BasicBlock, si int) bool {
 	return false
 }
 
-func (c *Ctx) ruleQ5() {
-	fns := c.fnsInPkg("stores/replicator")
-	// counters read by the idle test: the function that decides whether load-end may fire
+// idlePredicates: the boolean, parameterless methods of the replicator whose true result
+// leads to the function that emits EventLoadEnd — the test that decides whether load-end fires.
+func (c *Ctx) idlePredicates(fns []*ssa.Function) []*ssa.Function {
 	var idleFns []*ssa.Function
 	for _, f := range fns {
 		if c.isTestFile(f.Pos()) || f.Parent() != nil {
@@ -482,6 +483,12 @@ func (c *Ctx) ruleQ5() {
 			}
 		}
 	}
+	return idleFns
+}
+
+func (c *Ctx) ruleQ5() {
+	fns := c.fnsInPkg("stores/replicator")
+	idleFns := c.idlePredicates(fns)
 	c.floor("Q5", "idle tests gating load-end", len(idleFns), 1)
 	counters := map[*types.Var]bool{}
 	for _, f := range idleFns {
@@ -555,53 +562,96 @@ func (c *Ctx) ruleQ5() {
 			}
 			return false
 		}
-		// workers: functions started with `go` (directly or through a closure) that reach a dequeue
-		for _, w := range fns {
-			if c.isTestFile(w.Pos()) || w.Parent() != nil {
+		isDequeue := func(call ssa.CallInstruction) bool {
+			h := call.Common().StaticCallee()
+			return h != nil && h.Name() == "Next" && h.Signature.Recv() != nil && strings.Contains(typeStr(h.Signature.Recv().Type()), "processQueue")
+		}
+		anyReturn := func(in ssa.Instruction) bool { _, ok := in.(*ssa.Return); return ok }
+		decVia := func(in ssa.Instruction) bool { return c.isSite(dec, in) }
+		atQueueOrSpawn := incAtEnqueue || len(spawned) > 0
+		if !atQueueOrSpawn {
+			// incremented by the worker itself, wherever in its call chain: from the increment
+			// every path to a return passes the decrement, in that function or — for a helper
+			// that returns with the count taken — in each caller after the call
+			k := 0
+			for _, f := range incFns {
+				eachInstr(f, func(in ssa.Instruction) {
+					if !inc.directInstr(in) {
+						return
+					}
+					cons := fmt.Sprintf("%s#counter:%s#%d", fnKey(f), cv.Name(), k)
+					k++
+					if ok, hit, tr := c.releasedAfter(f, after(in), dec, 0); !ok {
+						c.bad("Q5", cons, hit.Pos(), fmt.Sprintf("%s is incremented in the worker and a path to its return skips the decrement (neither here nor in the callers): the idle test stays false and load-end never fires again", cv.Name()), c.trailStr(tr)...)
+					} else {
+						c.ok("Q5", cons, in.Pos(), "every increment of "+cv.Name()+" is followed by its decrement on every path (here or, for a helper, in each caller)")
+					}
+				})
+			}
+			continue
+		}
+		// counted per queued item or per started worker: the worker — a named function started
+		// with `go`, or called by the function literal that is — owes the decrement on every path
+		workers := map[*ssa.Function]bool{}
+		for _, f := range fns {
+			if c.isTestFile(f.Pos()) {
 				continue
 			}
-			callsDeq := false
-			eachCall(w, func(call ssa.CallInstruction) {
-				if g := call.Common().StaticCallee(); g != nil {
-					eachCall(g, func(gc ssa.CallInstruction) {
-						if h := gc.Common().StaticCallee(); h != nil && h.Name() == "Next" && h.Signature.Recv() != nil && strings.Contains(typeStr(h.Signature.Recv().Type()), "processQueue") {
-							callsDeq = true
+			eachInstr(f, func(in ssa.Instruction) {
+				g, ok := in.(*ssa.Go)
+				if !ok {
+					return
+				}
+				var started *ssa.Function
+				if mc, ok := g.Call.Value.(*ssa.MakeClosure); ok {
+					started, _ = mc.Fn.(*ssa.Function)
+				} else {
+					started = g.Call.StaticCallee()
+				}
+				if started == nil || started.Blocks == nil {
+					return
+				}
+				cands := []*ssa.Function{started}
+				eachCall(started, func(call ssa.CallInstruction) {
+					if h := call.Common().StaticCallee(); h != nil && h.Blocks != nil && h.Pkg == started.Pkg {
+						cands = append(cands, h)
+						// one more level: a named worker that only wraps the real one
+						eachCall(h, func(c2 ssa.CallInstruction) {
+							if h2 := c2.Common().StaticCallee(); h2 != nil && h2.Blocks != nil && h2.Pkg == started.Pkg {
+								cands = append(cands, h2)
+							}
+						})
+					}
+				})
+				for _, w := range cands {
+					if w.Parent() == nil && !isEnqueue(w) && c.reachesStatic(w, isDequeue, 0) {
+						// the function that dequeues itself is a step of the worker, not the worker
+						direct := false
+						eachCall(w, func(call ssa.CallInstruction) {
+							if isDequeue(call) {
+								direct = true
+							}
+						})
+						if !direct {
+							workers[w] = true
 						}
-					})
+					}
 				}
 			})
-			if !callsDeq || isEnqueue(w) {
-				continue
-			}
-			cons := fnKey(w) + "#counter:" + cv.Name()
-			anyReturn := func(in ssa.Instruction) bool { _, ok := in.(*ssa.Return); return ok }
-			decVia := func(in ssa.Instruction) bool { return c.isSite(dec, in) }
-			if incAtEnqueue || incAtSpawn(w) {
+		}
+		var ws []*ssa.Function
+		for w := range workers {
+			ws = append(ws, w)
+		}
+		sort.Slice(ws, func(i, j int) bool { return fnKey(ws[i]) < fnKey(ws[j]) })
+		for _, w := range ws {
+			if incAtSpawn(w) || incAtEnqueue {
+				cons := fnKey(w) + "#counter:" + cv.Name()
 				if hit, tr := findPath(w, entry, decVia, anyReturn, queueEmptyCut); hit != nil {
 					c.bad("Q5", cons, hit.Pos(), fmt.Sprintf("%s is incremented when an item is queued (or where its worker is started), but the worker started for that item can return without decrementing it (for instance when it gives its item back after a cancelled slot wait): the count never returns to zero, the idle test stays false, load-end never fires again and nothing fetched afterwards is ever joined", cv.Name()), c.trailStr(tr)...)
 				} else {
 					c.ok("Q5", cons, w.Pos(), cv.Name()+" is decremented on every path of the worker")
 				}
-				continue
-			}
-			viol := false
-			eachInstr(w, func(in ssa.Instruction) {
-				if viol || !c.isSite(inc, in) {
-					return
-				}
-				start := after(in)
-				if call, ok := in.(ssa.CallInstruction); ok {
-					if st, _, tested := okStart(call); tested {
-						start = st
-					}
-				}
-				if hit, tr := findPath(w, start, decVia, anyReturn, nil); hit != nil {
-					viol = true
-					c.bad("Q5", cons, hit.Pos(), fmt.Sprintf("%s is incremented in the worker and a path to its return skips the decrement: the idle test stays false and load-end never fires again", cv.Name()), c.trailStr(tr)...)
-				}
-			})
-			if !viol {
-				c.ok("Q5", cons, w.Pos(), "every increment of "+cv.Name()+" in the worker is followed by its decrement on every path")
 			}
 		}
 	}
